@@ -20,6 +20,11 @@ Theorem C17_src_thick_points_unfold : forall l w S0 ps,
   thick_points l w = Some (flat_map (par_points (bparams_new (eff_line l)) (major_length l)) ps).
 Proof. exact thick_points_unfold. Qed.
 
+(* round 5: line::Points::empty (thick_points.rs / points.rs) yields nothing and stays empty *)
+Theorem C17_src_line_points_empty_yields_nothing :
+  src_line_Points_next src_line_Points_empty = (src_line_Points_empty, None) /\ line_Points_points_remaining src_line_Points_empty = 0.
+Proof. split; vm_compute; reflexivity. Qed.
+
 Example C17_src_thickpoints_nonvacuous :
   match src_ThickPoints_new 30 (L (P 0 0) (P 3 0)) 2 with
   | Some s0 => src_thick_run 20 30 s0 = thick_points (L (P 0 0) (P 3 0)) 2
